@@ -133,6 +133,29 @@ for pid, text, ref in [
 ]:
     CLAIMED[pid] = dict(category="model_checking", text=text, design_ref=ref, note=READER_NOTE, technique=READER_TECH)
 
+WRITER_NOTE = ("Documents come from a seeded generator plus a directed boundary list; outputs are RECORDED from the "
+               "library and decided by TLC (WriterTrace.tla, one Focus per property). Float printing error and the "
+               "float-encoding rule are measured by the harness (libquadmath). Documents at the 16-bit size boundaries "
+               "are validated by header + size only (too large for TLC sequences).")
+WRITER_TECH = "TLA+ format/reader specs as the independent parser/decoder; trace validation of recorded serializer outputs"
+for pid, text, ref in [
+    ("C02", "WriterTrace.tla (Focus C02): the compact text parsed by JsonReader.tla in strict RFC 8259 mode denotes the "
+            "document (strings byte-exact, integers digit-exact via a TLA+ decimal conversion, members in order, raw "
+            "values verbatim, non-finite as null), pretty = compact modulo insignificant whitespace, identical bytes "
+            "and counts on char buffer / char[N] / std::string / std::ostream / custom writer / Arduino String / Print, "
+            "measureJson*, and the buffer law for every capacity 0..length+2 with guard bytes.", "DESIGN.md §4 C02"),
+    ("C07", "WriterTrace.tla (Focus C07) on recorded round trips: MessagePack round trip byte-identical, JSON round trip "
+            "equivalent, JSON->document->MessagePack->document equal to JSON->document; MsgPackMC checks at model "
+            "level that Canon(Decode(e)) re-decodes to the same value and is stable for every explored byte string.",
+     "DESIGN.md §4 C07"),
+    ("C08", "WriterTrace.tla (Focus C08): MsgPack.tla's decoder (the format definition, model-checked for prefix/Canon "
+            "properties) accepts the recorded bytes as exactly one object equal to the document (integers with sign "
+            "over the int64/uint64 range, strings byte-exact, bin/ext verbatim, floats bit-exact or integer encoding "
+            "of an integral value), counts = measureMsgPack, buffer law, header widths at 31/32, 255/256, 15/16 and "
+            "65535/65536 from the specification's ladder.", "DESIGN.md §4 C08"),
+]:
+    CLAIMED[pid] = dict(category="model_checking", text=text, design_ref=ref, note=WRITER_NOTE, technique=WRITER_TECH)
+
 NOT_YET = {
 }
 
